@@ -183,26 +183,36 @@ def run(F, R, tier):
     disp = operator_dispatchers(F, R)
 
     def pops_then_apply(g):
-        """(popped-first name, popped-second name, [rendered closure applications]) of a dispatcher body"""
-        b = H.body_of(g)
-        lets = [(s_["pat"].get("name"), H.render(s_["init"])) for s_ in b.get("stmts", []) if s_["k"] == "let"][:2]
-        params = {p_.get("name") for p_ in g["hir"]["params"]}
-        fnp = [p_.get("name") for p_ in g["hir"]["params"] if "fn(" in str(p_.get("ty", ""))]
-        calls = [c for c in H.walk(b) if c.get("k") == "call" and H.strip(c.get("f") or {}).get("k") == "path" and H.strip(c["f"])["res"].get("r") == "local"
-                 and H.strip(c["f"])["res"].get("name") in params]
-        return lets, [H.render(c) for c in calls], [H.strip(c["f"])["res"]["name"] for c in calls]
+        """the operands a dispatcher pops, in the order it pops them, and the operator applications op(x, y) with x and y
+        traced to those pops (helpers such as `pop_operands(line)? -> (left, right)` read in place; names do not matter)"""
+        KEEP = ("pop", "push", "peek", "top")
+        b = H.split_tuple_lets(H.untry_inlined(H.inline_helpers(F, H.body_of(g), max_size=120, skip=lambda c_: H.last(c_) in KEEP or (F.fns.get(c_) or {}).get("file") != g["file"])))
+        lets = {x["pat"]["id"]: x["init"] for x in H.walk(b) if x.get("k") == "let" and x.get("pat", {}).get("k") == "bind" and x.get("init") is not None}
+        pops = []      # ids of the locals bound to self.pop(..)?, in evaluation order
+        for x in H.walk(b):
+            if x.get("k") == "let" and x.get("pat", {}).get("k") == "bind" and x.get("init") is not None:
+                i_ = H.strip(H.untry(x["init"]))
+                if i_.get("k") == "mcall" and (i_.get("callee") or "").endswith("VM::pop"):
+                    pops.append(x["pat"]["id"])
+
+        def src(e, d=0):
+            e = H.strip(e)
+            while d < 6 and H.is_local(e) and H.local_id(e) not in pops and H.local_id(e) in lets:
+                e = H.strip(lets[H.local_id(e)])
+                d += 1
+            return H.local_id(e) if H.is_local(e) else None
+        params = {p_.get("id") for p_ in g["hir"]["params"]}
+        apps = [c for c in H.walk(b) if c.get("k") == "call" and H.is_local(H.strip(c.get("f") or {})) and H.local_id(H.strip(c["f"])) in params and len(c.get("args", [])) == 2]
+        return pops, [(src(c["args"][0]), src(c["args"][1])) for c in apps], [H.render(c) for c in apps]
     for role, what in (("binary", "binary_op"), ("bitwise", "bitwise_op")):
         g = F.fn(disp[role]) if disp[role] else None
         if not R.anchor("VM::" + what, g):
             continue
-        lets, calls, fnames = pops_then_apply(g)
-        popped = len(lets) == 2 and all(re.fullmatch(r"self\.pop\(\w+\)\?", t) for _, t in lets)
-        R.ob("vm-operand-order", "%s pops the right operand first, then the left" % what, popped, str(lets), F.loc(g))
-        if popped:
-            first, second = lets[0][0], lets[1][0]
-            want_call = lambda fn: "%s(&%s, &%s)" % (fn, second, first)
+        pops, apps, texts_ = pops_then_apply(g)
+        R.ob("vm-operand-order", "%s pops the right operand first, then the left" % what, len(pops) == 2, "%d operands popped" % len(pops), F.loc(g))
+        if len(pops) == 2:
             R.ob("vm-operand-order", "%s applies op(left, right): the value popped second is the left operand" % what,
-                 bool(calls) and all(c == want_call(fn) for c, fn in zip(calls, fnames)), str(sorted(set(calls))), F.loc(g))
+                 bool(apps) and all(a_ == (pops[1], pops[0]) for a_ in apps), str(sorted(set(texts_))), F.loc(g))
     if arms:
         for op, want in sorted(VM_CLOSURES.items()):
             a = arms.get(op)
